@@ -37,9 +37,10 @@ Definition cc_result (c : cc_cfg) : result :=
 
 (* ------------------------------------------------------------------ jwt finalizer *)
 
-(** the signer: the key id in use and the generation of the key behind it
-    (every successful reload of the key store installs a new key) *)
-Record signer := { sg_kid : string; sg_gen : nat }.
+(** the signer: the key id in use, the generation of the key behind it (every
+    successful reload of the key store installs a new key) and the RFC 7638
+    thumbprint of that key (an oracle: case data) *)
+Record signer := { sg_kid : string; sg_gen : nat; sg_thumb : string }.
 
 (** [jf_key_id]: `signer.key_id` of the configuration ([None]: first entry of the key store) *)
 Record jf_cfg := { jf_key_id : option string; jf_iss : string; jf_claims : option tpl; jf_ttl : Z }.
@@ -48,21 +49,24 @@ Record jreq := { j_sub_id : string; j_sub_json : string; j_outputs : alist; j_ou
 
 Inductive jstep :=
 | JExec (c : jf_cfg) (q : jreq)
-| JReload (kid : string).      (* the key store file now holds one new key with this id *)
+| JReload (kid thumb : string). (* the key store file now holds one new key with this id and thumbprint *)
 
 (** jwtSigner.load: a configured key_id that is not in the new key store makes the reload fail *)
-Definition reload (c_key_id : option string) (s : signer) (kid : string) : signer :=
+Definition reload (c_key_id : option string) (s : signer) (kid thumb : string) : signer :=
   match c_key_id with
-  | Some k => if String.eqb k kid then {| sg_kid := kid; sg_gen := S (sg_gen s) |} else s
-  | None => {| sg_kid := kid; sg_gen := S (sg_gen s) |}
+  | Some k => if String.eqb k kid then {| sg_kid := kid; sg_gen := S (sg_gen s); sg_thumb := thumb |} else s
+  | None => {| sg_kid := kid; sg_gen := S (sg_gen s); sg_thumb := thumb |}
   end.
 
 Definition jf_alg : string := "ES256".
 
 Section FinKeys.
+  (** [fx5]: the signer's hash covers the key itself (its thumbprint): repair d9caf75 of C11-F5 / C16-F1 *)
+  Variable fx5 : bool.
   Variable H : string -> string.
 
-  Definition signer_fields (s : signer) (c : jf_cfg) : list fld := [FV (sg_kid s); FV jf_alg; FV (jf_iss c)].
+  Definition signer_fields (s : signer) (c : jf_cfg) : list fld :=
+    [FV (sg_kid s); FV jf_alg; FV (jf_iss c)] ++ (if fx5 then [FX (sg_thumb s)] else []).
 
   Definition jf_fields (s : signer) (c : jf_cfg) (q : jreq) : list fld :=
     [FX (H (cat (signer_fields s c)))]
@@ -100,8 +104,8 @@ Definition jf_fresh (s : signer) (c : jf_cfg) (q : jreq) : outcome :=
 Definition jf_stores (c : jf_cfg) : bool := (jf_ttl c >? 5000000000)%Z.
 
 (** Execute: the key is always looked up; a generated token is stored when ttl > 5 s *)
-Definition jf_exec (H : string -> string) (s : signer) (cch : cache) (c : jf_cfg) (q : jreq) : sres * cache :=
-  let k := jf_key H s c q in
+Definition jf_exec (fx5 : bool) (H : string -> string) (s : signer) (cch : cache) (c : jf_cfg) (q : jreq) : sres * cache :=
+  let k := jf_key fx5 H s c q in
   match lookup k cch with
   | Some r => ({| sr_key := Some k; sr_hit := true; sr_calls := 0; sr_out := OAllow r |}, cch)
   | None =>
@@ -111,12 +115,12 @@ Definition jf_exec (H : string -> string) (s : signer) (cch : cache) (c : jf_cfg
   end.
 
 (** a history of executions and key-store reloads of one signer ([kid_conf] is its configured key_id) *)
-Fixpoint jrun (H : string -> string) (kid_conf : option string) (s : signer) (cch : cache) (h : list jstep)
+Fixpoint jrun (fx5 : bool) (H : string -> string) (kid_conf : option string) (s : signer) (cch : cache) (h : list jstep)
   : list (sres * outcome) :=
   match h with
   | [] => []
-  | JExec c q :: r => let '(x, cch') := jf_exec H s cch c q in (x, jf_fresh s c q) :: jrun H kid_conf s cch' r
-  | JReload kid :: r => jrun H kid_conf (reload kid_conf s kid) cch r
+  | JExec c q :: r => let '(x, cch') := jf_exec fx5 H s cch c q in (x, jf_fresh s c q) :: jrun fx5 H kid_conf s cch' r
+  | JReload kid th :: r => jrun fx5 H kid_conf (reload kid_conf s kid th) cch r
   end.
 
 (** client credentials: Token() *)
@@ -135,4 +139,121 @@ Fixpoint cc_run (H : string -> string) (cch : cache) (h : list cc_cfg) : list sr
   match h with
   | [] => []
   | c :: r => let '(x, cch') := cc_exec H cch c in x :: cc_run H cch' r
+  end.
+
+(* ------------------------------------------------------------------ RFC 7234 cache of an endpoint (httpcache.RoundTripper) *)
+
+(** One endpoint with `http_cache.enabled`.  [hc_vary]: the request header names
+    the server lists in `Vary`; the harness's server is honest about it: its
+    response body is made of exactly these headers of the request.
+    [hc_cacheable]: the response carries freshness information and no no-store
+    (the RFC 7234 parser is an oracle).  [fx8]: candidate repair — responses that
+    carry a Vary header are not stored. *)
+Record hc_cfg := { hc_url : string; hc_method : string; hc_vary : list string; hc_cacheable : bool }.
+
+Definition hc_fields (c : hc_cfg) : list fld := [FV "RFC 7234"; FV (hc_url c); FV (hc_method c)].
+
+Definition hc_key (H : string -> string) (c : hc_cfg) : string := hex (H (cat (hc_fields c))).
+
+Definition hc_body (c : hc_cfg) (hdrs : alist) : string :=
+  match hc_vary c with
+  | [] => "static"
+  | v => join "|" (map (fun n => or_default "" (lookup n hdrs)) v)
+  end.
+
+Definition hc_stores (fx8 : bool) (c : hc_cfg) : bool :=
+  hc_cacheable c && String.eqb (hc_method c) "GET" && negb (fx8 && negb (is_nil (hc_vary c))).
+
+Definition hc_result (c : hc_cfg) (hdrs : alist) : result :=
+  {| rs_sent := {| s_url := hc_url c; s_method := hc_method c; s_headers := []; s_cookies := []; s_auth := "";
+                   s_body := hc_body c hdrs |};
+     rs_sub := ""; rs_scopes := [] |}.
+
+(** RoundTrip: the key is always looked up; a response is stored when cacheable *)
+Definition hc_exec (fx8 : bool) (H : string -> string) (c : hc_cfg) (cch : cache) (hdrs : alist) : sres * cache :=
+  let k := hc_key H c in
+  match lookup k cch with
+  | Some r => ({| sr_key := Some k; sr_hit := true; sr_calls := 0; sr_out := OAllow r |}, cch)
+  | None => ({| sr_key := Some k; sr_hit := false; sr_calls := 1; sr_out := OAllow (hc_result c hdrs) |},
+             if hc_stores fx8 c then (k, hc_result c hdrs) :: cch else cch)
+  end.
+
+Fixpoint hc_run (fx8 : bool) (H : string -> string) (c : hc_cfg) (cch : cache) (h : list alist) : list sres :=
+  match h with
+  | [] => []
+  | x :: r => let '(y, cch') := hc_exec fx8 H c cch x in y :: hc_run fx8 H c cch' r
+  end.
+
+(* ------------------------------------------------------------------ key cache of the jwt authenticator *)
+
+(** `jwks_endpoint.url`: a literal, or a template around `{{ .TokenIssuer }}`
+    (rendered from the UNVERIFIED `iss` claim of the presented token) *)
+Inductive jurl := JLit (s : string) | JTpl (pre suf : string).
+
+Definition jurl_text (u : jurl) : string :=
+  match u with JLit s => s | JTpl p s => (p ++ "{{ .TokenIssuer }}" ++ s)%string end.
+
+Definition jurl_render (u : jurl) (iss : string) : string :=
+  match u with JLit s => s | JTpl p s => (p ++ iss ++ s)%string end.
+
+(** [jk_headers]: the endpoint's literal headers, sorted, including the default Accept *)
+Record jk_cfg := { jk_url : jurl; jk_headers : alist; jk_ttl : option Z }.
+
+(** a presented token: claimed issuer, key id, the issuer whose key really signed it, subject *)
+Record jtok := { t_iss : string; t_kid : string; t_signer : string; t_sub : string }.
+
+(** what is published at a JWKS URL: key ids with the issuer the key belongs to *)
+Definition jwks_world := list (string * list (string * string)).
+
+Definition jk_ep_fields (c : jk_cfg) : list fld :=
+  [FV (jurl_text (jk_url c)); FV "GET"] ++ kv_fields (jk_headers c).
+
+Definition jk_fields (H : string -> string) (c : jk_cfg) (t : jtok) : list fld :=
+  [FX (H (cat (jk_ep_fields c))); FV (jurl_render (jk_url c) (t_iss t)); FV (t_kid t)].
+
+Definition jk_enabled (c : jk_cfg) : bool := match jk_ttl c with None => true | Some x => (x >? 0)%Z end.
+
+Definition jk_key (H : string -> string) (c : jk_cfg) (t : jtok) : option string :=
+  if jk_enabled c then Some (hex (H (cat (jk_fields H c t)))) else None.
+
+Inductive jk_fetch := JKNoServer | JKNoKey | JKKey (owner : string).
+
+Definition jk_lookup (w : jwks_world) (c : jk_cfg) (t : jtok) : jk_fetch :=
+  match lookup (jurl_render (jk_url c) (t_iss t)) w with
+  | None => JKNoServer
+  | Some ks => match lookup (t_kid t) ks with None => JKNoKey | Some o => JKKey o end
+  end.
+
+Definition jk_owner_result (o : string) : result :=
+  {| rs_sent := {| s_url := ""; s_method := ""; s_headers := []; s_cookies := []; s_auth := ""; s_body := "" |};
+     rs_sub := o; rs_scopes := [] |}.
+
+(** signature verification with the key of [owner] *)
+Definition jk_decide (owner : string) (t : jtok) : outcome :=
+  if String.eqb owner (t_signer t) then OAllow (jk_owner_result (t_sub t)) else ODeny.
+
+Definition jk_fresh (w : jwks_world) (c : jk_cfg) (t : jtok) : outcome :=
+  match jk_lookup w c t with
+  | JKNoServer => OErr
+  | JKNoKey => ODeny
+  | JKKey o => jk_decide o t
+  end.
+
+(** getKey + verifyTokenWithKey: the fetched key is cached whatever the verification says *)
+Definition jk_exec (H : string -> string) (w : jwks_world) (cch : cache) (c : jk_cfg) (t : jtok) : sres * cache :=
+  match jk_key H c t with
+  | None => ({| sr_key := None; sr_hit := false; sr_calls := 1; sr_out := jk_fresh w c t |}, cch)
+  | Some k =>
+    match lookup k cch with
+    | Some r => ({| sr_key := Some k; sr_hit := true; sr_calls := 0; sr_out := jk_decide (rs_sub r) t |}, cch)
+    | None =>
+      ({| sr_key := Some k; sr_hit := false; sr_calls := 1; sr_out := jk_fresh w c t |},
+       match jk_lookup w c t with JKKey o => (k, jk_owner_result o) :: cch | _ => cch end)
+    end
+  end.
+
+Fixpoint jk_run (H : string -> string) (w : jwks_world) (cch : cache) (h : list (jk_cfg * jtok)) : list sres :=
+  match h with
+  | [] => []
+  | (c, t) :: r => let '(x, cch') := jk_exec H w cch c t in x :: jk_run H w cch' r
   end.
